@@ -17,11 +17,11 @@ def make_backends(world, wid, variants):
 
     def own_states(params):
         suffix = key_of(params)
-        return sorted({s for (o, v, s) in world.pools[wid] if o == suffix})
+        return sorted({s for (o, v, s) in world.pools[wid] if o == suffix and v in ("*", variants.get(suffix, "*"))})
 
     def shared_states(params):
         suffix = key_of(params)
-        return sorted({s for (o, v, s) in world.pools["shared"] if o == suffix})
+        return sorted({s for (o, v, s) in world.pools["shared"] if o == suffix and v in ("*", variants.get(suffix, "*"))})
 
     class Transport:
         log = []
